@@ -262,6 +262,17 @@ def proofOfPayment : Schema := .tup [.seq (.tup [vecU8, paymentQuote])]
 def scratchpad : Schema := .tup [scratchpadAddress, u64, .bytes, u64, .opt blsSignature]
 def transaction : Schema := .tup [blsPublicKey, .seq blsPublicKey, xorName, .seq (.tup [blsPublicKey, xorName]), blsSignature]
 
+/-- `ant_registers::Permissions` -/
+def permissions : Schema := .enum [(nm "AnyoneCanWrite", .absent), (nm "Writers", .seq blsPublicKey)]
+/-- `ant_registers::Register { address, permissions }` — the base register the owner signs -/
+def register : Schema := .tup [registerAddress, permissions]
+/-- `crdts::merkle_reg::Node<Entry> { children: BTreeSet<[u8; 32]>, value: Vec<u8> }` -/
+def merkleNode : Schema := .tup [.seq xorName, vecU8]
+/-- `ant_registers::RegisterOp { address, crdt_op, source, signature }` -/
+def registerOp : Schema := .tup [registerAddress, merkleNode, blsPublicKey, blsSignature]
+/-- `ant_registers::SignedRegister { register, signature, ops: BTreeSet<RegisterOp> }` — the payload of the two register kinds -/
+def signedRegister : Schema := .tup [register, blsSignature, .seq registerOp]
+
 def protocolError : Schema :=
   .enum [(nm "UserDataDirectoryNotObtainable", .absent), (nm "CouldNotObtainPortFromMultiAddr", .absent),
     (nm "ParseRetryStrategyError", .absent), (nm "CouldNotObtainDataDir", .absent),
@@ -295,6 +306,17 @@ def queryResponse : Schema :=
     (nm "GetClosestPeers", .tup [networkAddress, .seq (.tup [networkAddress, .seq .bytes]), .opt vecU8])]
 def response : Schema := .enum [(nm "Cmd", cmdResponse), (nm "Query", queryResponse)]
 
+/-- the type stored under each record kind (what `ant-node/src/put_validation.rs` passes to `try_deserialize_record`) -/
+def payloadSchema : RecordKind → Schema
+  | .Chunk => chunk
+  | .ChunkWithPayment => .tup [proofOfPayment, chunk]
+  | .Transaction => .seq transaction
+  | .TransactionWithPayment => .tup [proofOfPayment, transaction]
+  | .Register => signedRegister
+  | .RegisterWithPayment => .tup [proofOfPayment, signedRegister]
+  | .Scratchpad => scratchpad
+  | .ScratchpadWithPayment => .tup [proofOfPayment, scratchpad]
+
 /-- the type names used on the op lines of the correspondence run -/
 def schemaOf : String → Option Schema
   | "RecordHeader" => some recordHeader
@@ -309,6 +331,8 @@ def schemaOf : String → Option Schema
   | "PaidScratchpad" => some (.tup [proofOfPayment, scratchpad])
   | "Transactions" => some (.seq transaction)
   | "PaidTransaction" => some (.tup [proofOfPayment, transaction])
+  | "SignedRegister" => some signedRegister
+  | "PaidRegister" => some (.tup [proofOfPayment, signedRegister])
   | "ProtocolError" => some protocolError
   | "Cmd" => some cmd
   | "Query" => some query
